@@ -2,7 +2,7 @@
 From Coq Require Import List ZArith NArith Bool.
 From Coq Require Import Permutation.
 From ELA Require Import model.Ledger proof.Ledger_unspent proof.C06_Ledger proof.C13_Ledger
-  proof.Ledger_addr proof.Ledger_addr_inv proof.C13_Full proof.C13_Progress.
+  proof.Ledger_addr proof.Ledger_addr_inv proof.C13_Full proof.C13_Progress proof.C13_Total.
 From ELA Require corr.C13_corr. (* so that the correspondence checker is rebuilt with the model *)
 Import ListNotations.
 Local Open Scope N_scope.
@@ -32,9 +32,9 @@ Print Assumptions C13_disconnect_connect_partial.
    per-address UTXO index as a multiset (an empty entry is the same as an
    absent one in the model), and re-establishes [inv2].
    Conditional on both SaveBlock and RollbackBlock returning Ok: SaveBlock's
-   success on valid blocks is C13_save_block_succeeds below; RollbackBlock's is
-   proved for the tx index and the per-address index and observed on the real
-   store for the unspent index. *)
+   success on valid blocks is C13_save_block_succeeds below, RollbackBlock's is
+   C13_rollback_after_save_succeeds; C13_disconnect_connect_total is the
+   statement without either hypothesis. *)
 Theorem C13_disconnect_connect : forall s c b s1 s2,
   inv2 s c -> c <> [] -> valid_block s b ->
   (forall b', In b' c -> b_height b' < b_height b) ->
@@ -94,15 +94,39 @@ Print Assumptions C13_refs_known_resolved.
    transaction) is connected: SaveBlock returns Ok.  In particular the
    unspent-index write-back never deletes an entry that does not exist.
    This discharges the "save_block s b = Ok s1" hypothesis of
-   C13_disconnect_connect; of "rollback_block ... = Ok s2" the tx-index and
-   per-address parts are discharged above, the unspent-index part
-   (unspent_disconnect) stays observed on the real store. *)
+   C13_disconnect_connect; "rollback_block ... = Ok s2" is discharged by
+   C13_rollback_after_save_succeeds, and C13_disconnect_connect_total puts
+   the pieces together. *)
 Theorem C13_save_block_succeeds : forall s c b,
   inv s c -> valid_block s b -> b_prev b = s_tip s ->
   (forall t, In t (b_txs b) -> t_cb t = false -> refs_known s t = true) ->
   exists s1, save_block s b = Ok s1.
 Proof. exact save_block_ok. Qed.
 Print Assumptions C13_save_block_succeeds.
+
+(* Progress, RollbackBlock after SaveBlock, and the UNCONDITIONAL form of the
+   property: for every state consistent with a chain (inv2) and every higher
+   block extending the tip that validation lets through, SaveBlock connects the
+   block, RollbackBlock disconnects it, both return Ok, and every query
+   (best block, transaction lookup, unspent outputs, per-address lists,
+   side-chain hashes, deposit returns, drafts) answers as before; the
+   invariant is re-established.  No hypothesis about success remains. *)
+Theorem C13_rollback_after_save_succeeds : forall cf s c b s1,
+  inv s c -> valid_block s b ->
+  (forall t, In t (b_txs b) -> t_cb t = false -> refs_known s t = true) ->
+  save_block s b = Ok s1 ->
+  exists s2, rollback_block cf s1 b = Ok s2.
+Proof. exact rollback_after_save_ok. Qed.
+Print Assumptions C13_rollback_after_save_succeeds.
+
+Theorem C13_disconnect_connect_total : forall s c b,
+  inv2 s c -> c <> [] -> valid_block s b -> b_prev b = s_tip s ->
+  (forall b', In b' c -> b_height b' < b_height b) ->
+  (forall t, In t (b_txs b) -> t_cb t = false -> refs_known s t = true) ->
+  exists s1 s2, save_block s b = Ok s1 /\ rollback_block cfg_fixed s1 b = Ok s2 /\
+    obs_eq s2 s /\ (forall a h, Permutation (s_addr s2 a h) (s_addr s a h)) /\ inv2 s2 c.
+Proof. exact disconnect_connect_total. Qed.
+Print Assumptions C13_disconnect_connect_total.
 
 (* ---------------------------------------------------------------- witnesses *)
 Definition x_cb (id lock : N) := mkTx id true lock [] [mkOut 0 30; mkOut 1 35; mkOut 0 35]%Z SNone.
@@ -193,3 +217,25 @@ Example C13_save_block_needs_validation :
   refs_known x_s0 (mkTx 3 false 0 [(1, 0)] [mkOut 2 999]%Z SNone) = true /\
   refs_known x_s0 (mkTx 3 false 0 [(9, 0)] [mkOut 2 999]%Z SNone) = false.
 Proof. vm_compute. auto. Qed.
+
+(* Non-vacuity of C13_disconnect_connect_total: every hypothesis holds for the
+   genesis state and the block x_b 2 (coinbase + a payload-V2 withdrawal
+   spending the genesis output). *)
+Example C13_total_nonvacuous :
+  inv2 x_s0 [x_g] /\ [x_g] <> [] /\ valid_block x_s0 (x_b 2) /\ b_prev (x_b 2) = s_tip x_s0 /\
+  (forall b', In b' [x_g] -> b_height b' < b_height (x_b 2)) /\
+  (forall t, In t (b_txs (x_b 2)) -> t_cb t = false -> refs_known x_s0 t = true).
+Proof.
+  split; [apply init_inv2; [reflexivity|repeat constructor; intros []|reflexivity]|].
+  split; [discriminate|]. split.
+  - constructor.
+    + vm_compute. constructor; [intros [H|[]]; discriminate|constructor; [intros []|constructor]].
+    + vm_compute. constructor; [intros []|constructor].
+    + intros t Ht. vm_compute in Ht. destruct Ht as [<-|[<-|[]]]; reflexivity.
+    + intros op Hop. vm_compute in Hop. destruct Hop as [<-|[]]. vm_compute. now left.
+    + intros k Hk. vm_compute in Hk. destruct Hk as [<-|[<-|[]]]; reflexivity.
+    + intros k Hk. vm_compute in Hk. contradiction.
+    + intros k Hk. vm_compute in Hk. contradiction.
+  - split; [reflexivity|]. split; [intros b' [<-|[]]; vm_compute; reflexivity|].
+    intros t [<-|[<-|[]]] Hcb; [discriminate Hcb | vm_compute; reflexivity].
+Qed.
